@@ -113,6 +113,15 @@ impl CertificateSigningRequestParams {
 		let alg = SignatureAlgorithm::from_oid(&alg_oid)?;
 
 		let info = &csr.certification_request_info;
+		// The key must be of the kind that `alg` implies (e.g. the same curve): the signature OID
+		// alone does not say so, and `alg` is what the issued certificate's key will be labelled as.
+		let expected_key_alg = yasna::construct_der(|writer| alg.write_oids_sign_alg(writer));
+		let (_, expected_key_alg) =
+			x509_parser::x509::AlgorithmIdentifier::from_der(&expected_key_alg)
+				.map_err(|_| Error::UnsupportedSignatureAlgorithm)?;
+		if expected_key_alg != info.subject_pki.algorithm {
+			return Err(Error::UnsupportedSignatureAlgorithm);
+		}
 		let mut params = CertificateParams {
 			distinguished_name: DistinguishedName::from_name(&info.subject)?,
 			..CertificateParams::default()
